@@ -297,11 +297,11 @@ def cold_run(sim_name, plan):
     return json.loads(p.stdout.strip().splitlines()[-1])
 
 
-def cold_reference(sim_name, job):
+def cold_reference(sim_name, job, hashseed=0):
     """The same reference computation in a cold interpreter (no fork from a
     pristine image): shows fork-from-pristine == fresh process."""
     env = dict(os.environ)
-    env["PYTHONHASHSEED"] = "0"
+    env["PYTHONHASHSEED"] = str(hashseed)
     p = subprocess.run([sys.executable, os.path.join(VERIF, "bin", "labsim"), "exec-ref", sim_name],
                        input=json.dumps(job), capture_output=True, text=True, env=env, timeout=600)
     if p.returncode != 0:
